@@ -12,6 +12,7 @@ pub mod c09;
 pub mod c10;
 pub mod c11;
 pub mod c12;
+pub mod c13;
 
 pub fn run(prop: &str, cfg: &Cfg, rep: &mut Report) -> bool {
     match prop {
@@ -26,6 +27,7 @@ pub fn run(prop: &str, cfg: &Cfg, rep: &mut Report) -> bool {
         "C10" => c10::run(cfg, rep),
         "C11" => c11::run(cfg, rep),
         "C12" => c12::run(cfg, rep),
+        "C13" => c13::run(cfg, rep),
         _ => return false,
     }
     true
